@@ -11,14 +11,14 @@ namespace Mux
 /-! ## One child -/
 
 /-- What the `LOOP:` body does with one child: match the child's own segment, descend, and on a
-miss of the subtree delete the child's name. -/
+miss of the subtree restore the parameter of the child's name (D30 repair). -/
 def tryChild (env : Env) (ic : Interceptors) (c : Node) (path : Bytes) (ps : Params) : MR :=
   match c.seg.match env ic path with
   | .no => .miss ps
   | .unsupported => .unsupported
   | .yes cap rest =>
     match Node.matchChildren env ic c rest (c.seg.record cap ps) with
-    | .miss ps2 => .miss (ps2.erase c.seg.name)
+    | .miss ps2 => .miss (restoreParam ps ps2 c.seg.name)
     | r => r
 
 /-- One step of the scan: a result other than a miss is final. -/
@@ -374,7 +374,8 @@ theorem indexedSearch_eq_scan (env : Env) (ic : Interceptors) {idx : List (UInt8
             rw [if_neg (fun h => h.1 hstr)] at hok
             have e := Node.matchChildren_miss hr hok (AllL_mem ht.2.1 hcin) ht.2.2
             subst e
-            rw [AMap.erase_fresh (fun hmem => hfresh (ht.2.2 _ hmem))]
+            rw [P19.restoreParam_fresh _ (fun hmem => hfresh (ht.2.2 _ hmem)),
+              AMap.erase_fresh (fun hmem => hfresh (ht.2.2 _ hmem))]
           | hit m ps' => rfl
           | fault s => rfl
           | unsupported => rfl
